@@ -67,6 +67,8 @@ the source (`harness/c16c17/semantic.go`); `Cfg.spec` states them with the speci
   fullCopyHi : Nat → Int
   /-- `writeFull`: the length word `4 + 4 + b.Len() + 4` -/
   fullWire : Nat → Nat
+  /-- `Full.Write`: the write counter is taken only after the validity checks passed (statement order) -/
+  fullSeqAfterCheck : Bool
   /-- `readIntermediate`: envelope when `padding` (3; 0 when absent) -/
   padEnvelope : Nat
   /-- `writePaddedIntermediate`: `int(b.Buf[length-1]) % 4` -/
@@ -100,6 +102,7 @@ def Cfg.spec : Cfg where
   fullCopyLo := fun _ => 8
   fullCopyHi := fun n => (n : Int) - 4
   fullWire := fun l => l + 12
+  fullSeqAfterCheck := true
   padEnvelope := 3
   padOf := fun last => last % 4
   padStrip := fun n => n % 4
@@ -318,6 +321,32 @@ def enc (cfg : Cfg) (crc : Bytes → Nat) (k : Kind) (seq : Int) (rnd : Bytes) (
   if cfg.outRejects p.length then .error (.badLen p.length)
   else if k ≠ .full ∧ cfg.misaligned p.length then .error .notAligned
   else .ok (encRaw cfg crc k seq rnd p)
+
+/-- Whether `Codec.Write` accepts a payload (depends on its length and the protocol only). -/
+def accepts (cfg : Cfg) (k : Kind) (p : Bytes) : Bool :=
+  !(cfg.outRejects p.length) && !(k ≠ .full && cfg.misaligned p.length)
+
+/-- `Codec.Write` as a transition of the writer's state (`Full.wSeqNo`; the other protocols are
+stateless, the counter is carried but unused): the bytes written or the error, and the new counter.
+A rejected write leaves the counter alone iff the counter is taken after the checks. -/
+def writeOp (cfg : Cfg) (crc : Bytes → Nat) (k : Kind) (wSeq : Int) (rnd p : Bytes) : Except WErr Bytes × Int :=
+  match enc cfg crc k wSeq rnd p with
+  | .ok b => (.ok b, wSeq + 1)
+  | .error e => (.error e, if cfg.fullSeqAfterCheck then wSeq else wSeq + 1)
+
+/-- A sequence of `Write` calls on one codec object: per call the outcome, and the final counter. -/
+def writeSession (cfg : Cfg) (crc : Bytes → Nat) (k : Kind) : Int → List (Bytes × Bytes) → List (Except WErr Bytes) × Int
+  | s, [] => ([], s)
+  | s, (rnd, p) :: ops =>
+    let (o, s1) := writeOp cfg crc k s rnd p
+    let (os, s2) := writeSession cfg crc k s1 ops
+    (o :: os, s2)
+
+/-- Everything a session put on the wire. -/
+def sessionWire : List (Except WErr Bytes) → Bytes
+  | [] => []
+  | .ok b :: os => b ++ sessionWire os
+  | .error _ :: os => sessionWire os
 
 /-- The stream written for a list of payloads, counters `seq, seq+1, …` (`rnd i` = random source of
 the i-th write). -/
